@@ -409,19 +409,28 @@ func baseToNumber(L *LState) int {
 	case LNumber:
 		L.Push(lv)
 	case LString:
-		str := strings.Trim(string(lv), " \n\t")
-		if strings.Index(str, ".") > -1 {
-			if v, err := strconv.ParseFloat(str, LNumberBit); err != nil {
+		if noBase || base == 10 {
+			// the same reader as the lexer and arithmetic coercion use
+			if v, err := parseNumber(string(lv)); err != nil {
 				L.Push(LNil)
 			} else {
-				L.Push(LNumber(v))
+				L.Push(v)
 			}
 		} else {
-			if noBase && strings.HasPrefix(strings.ToLower(str), "0x") {
-				base, str = 16, str[2:] // Hex number
+			if base < 2 || base > 36 {
+				L.ArgError(2, "base out of range")
 			}
-			if v, err := strconv.ParseInt(str, base, LNumberBit); err != nil {
+			// an integer without prefix, fraction or exponent; digits above 9 are letters in either case
+			str := strings.Trim(string(lv), " \t\n\v\f\r")
+			neg := false
+			if len(str) > 0 && (str[0] == '+' || str[0] == '-') {
+				neg = str[0] == '-'
+				str = str[1:]
+			}
+			if v, err := strconv.ParseUint(str, base, LNumberBit); err != nil {
 				L.Push(LNil)
+			} else if neg {
+				L.Push(-LNumber(v))
 			} else {
 				L.Push(LNumber(v))
 			}
